@@ -352,12 +352,14 @@ def fview (a : Authz) (t : Topic) (v : View) : View := v.filter fun p => a.entry
 /-- what `Subscription.Next` + the ACL filter of the subscribe loop hand to the handler: a pure
     function of (authorizer, shared item); `none`: everything in the item was filtered out and the
     loop continues with the next item. The shared item itself is never modified. -/
-def visible (a : Authz) (t : Topic) : Step → Option Step
+def visible (a : Authz) (_t : Topic) : Step → Option Step
   | .nstf => some .nstf
-  | .eos i post => some (.eos i (fview a t post))
+  | .eos i post => some (.eos i post)
   | .item it =>
       let evs := it.evs.filter a.allowed
-      if evs.isEmpty ∧ ¬ it.evs.isEmpty then none else some (.item ⟨it.idx, evs, fview a t it.post⟩)
+      -- (the ghost `post` stays the UNFILTERED query result: statements compare the view with its
+      --  ACL-filter, see `IsFilterOf`)
+      if evs.isEmpty ∧ ¬ it.evs.isEmpty then none else some (.item ⟨it.idx, evs, it.post⟩)
 
 /-- client side: `materializer` (view, index) + the current handler of `subscribeOnce` -/
 structure Mat where
